@@ -107,11 +107,22 @@ def invariant_definitions(ctx) -> tuple[FuncInfo, list[tuple[str, object]], ast.
     fi = ctx.repo.func("tucan.graph_utils.graph_from_molecule")
     # find the call that computes the invariant code and the list passed to it
     target = invariant_helper_call(ctx)
-    if target is None:
-        raise AnalysisError("graph_from_molecule no longer calls the invariant-code helper (anchor vanished)")
-    if len(target.node.args) < 2:
-        raise AnalysisError("invariant-code helper call has no definitions argument")
-    lst = target.node.args[1]
+    lst = None
+    if target is None or len(target.node.args) < 2:
+        # no helper call (the computation is written out in graph_from_molecule): the definitions are the list / tuple of
+        # definition records (constructor calls of one tucan class with a constant attribute key first) found there or
+        # at module level
+        cands = [n for n in own_walk(fi.node) if isinstance(n, (ast.List, ast.Tuple))] + \
+                [v for v in fi.module.assigns.values() if isinstance(v, (ast.List, ast.Tuple))]
+        for c in cands:
+            if c.elts and all(isinstance(e_, ast.Call) and e_.args and (ctx.repo.resolve_dotted(fi.module, e_.func) or (None,))[0] == "class"
+                              and isinstance(try_const(ctx, fi, e_.args[0]), str) for e_ in c.elts):
+                lst = c
+                break
+        if lst is None:
+            raise AnalysisError("graph_from_molecule no longer calls the invariant-code helper and holds no list of definitions (anchor vanished)")
+    else:
+        lst = target.node.args[1]
     if isinstance(lst, ast.Name):
         lst = single_def(fi.node, lst.id)
     if lst is not None and not isinstance(lst, (ast.List, ast.Tuple)):
@@ -253,9 +264,8 @@ def _check_invariant_helper(ctx, res: RuleResult):
     inv_key = repo.const("tucan.graph_attributes", "INVARIANT_CODE")
     gfm = repo.func("tucan.graph_utils.graph_from_molecule")
     target = invariant_helper_call(ctx)
-    if target is None or len(target.node.args) < 2:
-        raise AnalysisError("invariant-code helper vanished")
-    fi = target.target
+    inline = target is None or len(target.node.args) < 2
+    fi = gfm if inline else target.target
     universe = ["element_symbol", "atomic_number", "partition", "x_coord", "y_coord", "z_coord", "chg", "mass", "rad"]
     J = HeapInterp(repo, sink_keys=())
     rec = Obj("rec")
@@ -263,12 +273,18 @@ def _check_invariant_helper(ctx, res: RuleResult):
         rec.fields[k] = Obj("scalar", frozenset({f"@field:{k}"}))
     atoms = Obj("map")
     atoms.elem = rec
-    darg = target.node.args[1]
-    if isinstance(darg, ast.Name):
-        darg = single_def(gfm.node, darg.id) or darg
     try:
-        defs = J.ev(darg, {}, E, gfm)
-        J.call(fi, [atoms, defs])
+        if inline:
+            # the computation is written out in graph_from_molecule: follow that function itself (graph library calls are
+            # opaque to the interpreter; the atom records are what matters)
+            bonds_ = Obj("map")
+            J.call(gfm, [atoms, bonds_])
+        else:
+            darg = target.node.args[1]
+            if isinstance(darg, ast.Name):
+                darg = single_def(gfm.node, darg.id) or darg
+            defs = J.ev(darg, {}, E, gfm)
+            J.call(fi, [atoms, defs])
     except AnalysisError as ex:
         raise AnalysisError(f"R-KEYS: cannot follow the invariant-code helper {fi.qualname}: {ex}")
     got = rec.fields.get(inv_key)
@@ -857,12 +873,16 @@ def _appends_under_presence(scope: ast.AST, name: Optional[str]):
                     return False
     if not found:
         return None
-    # continue-guards in the enclosing loops
-    for n in ast.walk(scope):
-        if isinstance(n, ast.If) and any(isinstance(x, ast.Continue) for x in n.body):
-            t = n.test
-            if not (isinstance(t, ast.Compare) and len(t.ops) == 1 and isinstance(t.ops[0], ast.NotIn)):
-                return False
+    # continue-guards of the loop(s) that do the appending (not of the loop over the atoms, whose filter is being judged)
+    inner_loops = [lp for lp in ast.walk(scope) if isinstance(lp, ast.For) and lp is not scope and
+                   any(isinstance(x, ast.Call) and isinstance(x.func, ast.Attribute) and x.func.attr in ("append", "add", "extend") and isinstance(x.func.value, ast.Name)
+                       and (name is None or x.func.value.id == name) for x in ast.walk(lp))]
+    for lp in inner_loops:
+        for n in ast.walk(lp):
+            if isinstance(n, ast.If) and any(isinstance(x, ast.Continue) for x in n.body):
+                t = n.test
+                if not (isinstance(t, ast.Compare) and len(t.ops) == 1 and isinstance(t.ops[0], ast.NotIn)):
+                    return False
     return True
 
 
